@@ -5,7 +5,7 @@ import vf
 
 ID = 'C16'
 FLAVORS = ['default', 'dtostre']
-RULE = ('D2S/F2S lines (SCPI_DoubleToStr / SCPI_FloatToStr with an ample buffer) on the printf build and on the USE_CUSTOM_DTOSTRE build, DTOSTRE lines (SCPI_dtostre, precisions 1..15) on the custom build: '
+RULE = ('D2S/F2S lines (SCPI_DoubleToStr / SCPI_FloatToStr with an ample buffer, and with a buffer the text fits exactly) on the printf build and on the USE_CUSTOM_DTOSTRE build, DTOSTRE lines (SCPI_dtostre, precisions 1..15) on the custom build: '
         'random bit patterns over the full exponent range, all powers of ten 1e-300..1e300 (and 1e-38..1e38 as floats), values with a zero digit at every position, both sides of every d.ddd5 rounding boundary '
         'for 1..15 digits, subnormals, infinities and NaNs. Non-trivial: finite non-zero values; distinct = distinct lines.')
 MODELLED = ('snprintf("%.15lg"/"%g") is modelled by GFmt.fmt_g (exact round-half-even of the binary value, %g layout) -- libc itself is trusted, modelled, not verified; '
@@ -77,7 +77,7 @@ def within_one_unit(text, x, P):
     unit = Fraction(10) ** (e - P + 1)
     if abs(v - fx) > unit:
         tag = ''
-        if P >= 14 and abs(e) >= 20 and abs(v - fx) <= 5 * unit:
+        if P >= 13 and abs(e) >= 12 and abs(v - fx) <= 5 * unit:
             tag = '[ecvt-accuracy] '       # the recorded finding: the floating-point recurrence of scpi_ecvt loses the last digit(s) at large exponents
         return tag + 'text %r differs from the value %r by %.3g units of digit %d' % (text, x, float(abs(v - fx) / unit), P)
     return None
@@ -96,6 +96,19 @@ def streams(tier, rng):
         info[c] = ('d', b)
         fb = f2b(b2d(b)) if (b2d(b) == b2d(b) and abs(b2d(b)) < 3e38) else (b & 0xffffffff)
         c = 'F2S %x 64' % fb
+        cases.append(c)
+        info[c] = ('f', fb)
+
+    # buffers that the text fits exactly (text + NUL) or with one byte to spare: still all the digits
+    for b in bits[:: (5 if tier == 'quick' else 1)]:
+        t = gtext(b2d(b), 15, b >> 63)
+        for extra_room in (1, 2):
+            c = 'D2S %x %d' % (b, len(t) + extra_room)
+            cases.append(c)
+            info[c] = ('d', b)
+        fb = f2b(b2d(b)) if (b2d(b) == b2d(b) and abs(b2d(b)) < 3e38) else (b & 0xffffffff)
+        t = gtext(b2f(fb), 6, fb >> 31)
+        c = 'F2S %x %d' % (fb, len(t) + 1)
         cases.append(c)
         info[c] = ('f', fb)
 
@@ -178,7 +191,7 @@ def streams(tier, rng):
                     break
         return res
     yield {'name': 'custom-formatter', 'flavor': 'dtostre', 'cases': dcases, 'model': False, 'oracle': doracle, 'post': dpost, 'nontrivial': lambda c, o: c}
-    yield {'name': 'custom-build-tostr', 'flavor': 'dtostre', 'cases': [c for c in cases if c.startswith('D2S')][::4] + ['D2S %x 64' % b for b in subn], 'model': False,
+    yield {'name': 'custom-build-tostr', 'flavor': 'dtostre', 'cases': [c for c in cases if c.startswith('D2S') and c.endswith(' 64')][::4] + ['D2S %x 64' % b for b in subn], 'model': False,
            'oracle': lambda c, o: ([] if (o.startswith('X') or len(o.split(' ')) != 4 or b2d(info[c][1]) != b2d(info[c][1]) or abs(b2d(info[c][1])) == float('inf')) else
                                    [('custom-digits:ecvt-accuracy' if e.startswith('[ecvt') else 'custom-digits', 'custom build SCPI_DoubleToStr: ' + e) for e in [within_one_unit(vf.unhx(o.split(' ')[1]).decode('latin1'), b2d(info[c][1]), 15)] if e]),
            'nontrivial': lambda c, o: c}
